@@ -46,6 +46,8 @@ def run(P, rep, tier):
     rep.attempt(r3_domain, P, rep, ctx)
     rep.attempt(r4_policy, P, rep, ctx)
     rep.attempt(r5_mergeable_shapes, P, rep, ctx)
+    rep.attempt(r6_partial_fields, P, rep, ctx)
+    rep.attempt(r7_harvest_order, P, rep, ctx)
     rep.floor("C14.R1", 6)
     rep.floor("C14.R2", 6)
     rep.floor("C14.R3", 3)
@@ -302,6 +304,67 @@ def r5_mergeable_shapes(P, rep, ctx):
 
 
 # ------------------------------------------------------------------------------------------- R4
+def r6_partial_fields(P, rep, ctx):
+    """The partial model of a schema has, for every field, the *same* FieldInfo as the source field (alias included):
+    a partial parsed from serialised data (alias keys such as `@id`) and one converted from an instance (field names)
+    must address the same field, otherwise merge neither detects the conflict nor keeps the later value."""
+    fi = P.func(f"{PF}._partial_field")
+    f = F(ctx, fi)
+    ot = fi.params[1]
+    try:
+        paths = f.value_paths()
+    except ValueError as e:
+        raise AnalysisError(f"C14.R6: _partial_field: {e}")
+    ARGS = f"t.get_args({ot})"
+    ORIG = (f"next(filter(lambda ann: isinstance(ann, FieldInfo), {ARGS}[1:]), None)", f"next((ann for ann in {ARGS}[1:] if isinstance(ann, FieldInfo)), None)")
+    ok = bool(paths)
+    got = []
+    for lits, v, n_ in paths:
+        if not (isinstance(v, ast.Tuple) and len(v.elts) == 2):
+            ok = False
+            continue
+        annotated = [tv for k, tv in lits if k == f"t.get_origin({ot}) is Annotated"]
+        second = norm(v.elts[1])
+        got.append(second)
+        if annotated == [True]:
+            ok = ok and second in ORIG
+        else:
+            ok = ok and second == "None"
+    rep.check(ok, "C14.R6", fi.qual, "the partial field carries the source field's own FieldInfo object (found among the Annotated arguments), or none", fi.loc(), construct="_partial_field FieldInfo",
+              message=f"_partial_field hands out {got} as field info: a re-created / filtered FieldInfo loses the alias (and constraints) of the source field, so partials parsed from alias keys and partials converted from instances no longer address the same field and merging them drops a value silently")
+    made = [c for q in (f"{PF}._partial_field", f"{PF}._partial_type", f"{PF}.get_partial") if q in P.functions for c in local_calls(P.func(q).node) if norm(c.func) in ("FieldInfo", "Field")]
+    rep.check(not made, "C14.R6", PF, "the partial factory never constructs field infos of its own", P.func(f"{PF}._partial_field").loc(), construct="FieldInfo construction in the factory", message="the partial factory builds new FieldInfo objects instead of passing the source field's through")
+
+
+def r7_harvest_order(P, rep, ctx):
+    """harvest() folds the per-source partials in the order of `sources` (merge is not commutative: lists concatenate in
+    order, later values win): the operands of merge are an order-preserving map over the sources."""
+    fi = P.func("harvester.harvest")
+    f = F(ctx, fi)
+    src = fi.params[1]
+    merges = f.call_sites("__s.Partial.merge(___)")
+    ok = bool(merges)
+    shown = []
+    for i, c, b in merges:
+        st = [a for a in c.args if isinstance(a, ast.Starred)]
+        if len(st) != 1 or len(c.args) != 1:
+            ok = False
+            continue
+        e = f.xe_at(i, st[0].value)
+        shown.append(norm(e)[:90])
+        while isinstance(e, ast.Call) and isinstance(e.func, ast.Name) and e.func.id in ("list", "tuple") and len(e.args) == 1:
+            e = e.args[0]
+        good = False
+        if isinstance(e, ast.Call) and ((isinstance(e.func, ast.Name) and e.func.id == "map") or (isinstance(e.func, ast.Attribute) and e.func.attr == "map")) and len(e.args) == 2 and norm(e.args[1]) == src:
+            good = True  # builtin map / Executor.map: results in argument order
+        if isinstance(e, (ast.ListComp, ast.GeneratorExp)) and len(e.generators) == 1 and not e.generators[0].ifs and norm(e.generators[0].iter) == src:
+            good = True
+        ok = ok and good
+    unordered = [c for c in local_calls(fi.node) if norm(c.func).split(".")[-1] in ("as_completed", "imap_unordered", "wait", "set", "frozenset", "sorted", "reversed", "shuffle")]
+    rep.check(ok and not unordered, "C14.R7", fi.qual, "the partials are merged in the order of the given sources", fi.loc(), construct="harvest merge order",
+              message=f"harvest() does not merge the per-source results in source order (operands: {shown}; order-changing calls: {[norm(c)[:40] for c in unordered]}): lists are concatenated in a different order / a different value wins")
+
+
 def r4_policy(P, rep, ctx):
     fi = P.func(f"{PM}._update_field")
     f = F(ctx, fi)
